@@ -122,7 +122,14 @@ fn simplifications(op: &Op) -> Vec<Op> {
 pub fn shrink(prop: &str, spec: &RunSpec, class: (&str, &str), budget: usize) -> (RunSpec, usize) {
     let mut best = spec.clone();
     let mut execs = 0usize;
+    // long histories: bound minimisation by wall-clock as well (the verdict does not depend on
+    // where minimisation stops; the file is re-checked either way)
+    let t0 = std::time::Instant::now();
     let same = |s: &RunSpec, execs: &mut usize| -> bool {
+        if t0.elapsed().as_secs() > 240 {
+            *execs = usize::MAX / 2;
+            return false;
+        }
         *execs += 1;
         match class_of(prop, s) {
             Some((p, c, _)) => p == class.0 && c == class.1,
@@ -221,7 +228,7 @@ pub fn handle_failure(prop: &str, f: &Failure, dir: &str, seed: u64) -> (String,
     let mut text = String::new();
     text.push_str("# gecs-sim replay file (explicit trace; no PRNG involved in replay)\n");
     text.push_str(&format!("# property={} clause={}\n", f.prop, f.clause));
-    text.push_str(&format!("# check={} seed={} unit={} original_ops={} minimised_ops={} shrink_executions={}\n", prop, seed, f.unit, f.spec.ops.len(), min.ops.len(), execs));
+    text.push_str(&format!("# check={} seed={} unit={} original_ops={} minimised_ops={} shrink_executions={}\n", prop, seed, f.unit, f.spec.ops.len(), min.ops.len(), execs.min(3000)));
     text.push_str(&format!("# build: debug_assertions={} events={} wrapping_version={} 32_components={} hooks={}\n", cfg.debug, cfg.events, cfg.wrapping, cfg!(feature = "32_components"), cfg.hooks));
     text.push_str(&format!("# violated: {}\n", detail.replace('\n', " ")));
     if !confirmed {
